@@ -75,7 +75,7 @@ def mask_app(app):
     negotiate responses (SMB1 SystemTime; SMB2 SystemTime and ServerStartTime). No property constrains them."""
     if app is None:
         return None
-    a = bytearray(DATE_RE.sub(b"\nDate: X\n", bytes(app)))
+    a = bytearray(DATE_RE.sub(b"\nDate: X\n", bytes(app)))      # (the value's width varies: see net.norm_frame)
     if len(a) >= 68 and a[4:8] == b"\xffSMB" and a[8] == 0x72:
         a[60:68] = bytes(8)
     elif len(a) >= 124 and a[4:8] == b"\xfeSMB" and a[16:18] == b"\0\0":
